@@ -159,10 +159,11 @@ Proof.
 Qed.
 Print Assumptions c19_transparent.
 
-(* Offline lookup.  Full statement (candidate): "whatever directory entry
-   fetchOffline opens is a complete entry with the origin's bytes".  REFUTED:
-   fetchOffline takes the newest entry of the directory whatever its name,
-   which may be the temporary file of a killed (or still running) download. *)
+(* Offline lookup in the disk model ([read_offline d e]: the entry [e] is a parameter).
+   HYPOTHETICAL CHOICE (fetchOffline before c5d0145: the newest entry whatever its name): "whatever
+   directory entry is opened is a complete entry with the origin's bytes" is FALSE — [e] may be the
+   temporary file of a killed (or still running) download.  The code of this run only opens advertised
+   names (c19_offline_code, c19_offline_entry_whole), for which c19_offline_partial below applies. *)
 Theorem c19_offline_refuted : exists origin srv gunzip (bs : list builder) sched e c,
   builders_ok origin bs /\ etag_names_content origin srv /\
   read_offline (dsk (run gunzip srv (init (progs bs)) sched)) e = Some (c, false) /\
@@ -175,11 +176,10 @@ Proof.
 Qed.
 Print Assumptions c19_offline_refuted.
 
-(* ... what does hold: if the entry it opens is an advertised name, the
-   response is the complete origin content of that name; any other outcome is
-   an error or the bytes of a temporary file (missing part: nothing restricts
-   the choice to advertised names — the signed, gzip-framed index then fails
-   to parse, which the property allows: "or fail with an error"). *)
+(* ... what holds of the code of this run: the entry it opens is an advertised name
+   (c19_offline_code / c19_offline_entry_whole), and for an advertised name the response is the
+   complete origin content of that name.  (Name kept from the time when nothing restricted the choice
+   to advertised names; what is still missing is which FILE the name belongs to: C19-F6.) *)
 Theorem c19_offline_partial : forall origin d e c b,
   CacheSound origin d -> is_adv e = true ->
   read_offline d e = Some (c, b) -> c = origin e /\ b = true.
@@ -453,10 +453,12 @@ Theorem c19_flight_code :
   conf_of_shape head_shape = Some conf_head_etag /\
   conf_of_shape get_shape = Some conf_singleflight /\
   etag_cache_guards = ["Cache.load:nil-etag-cache-returns"; "Cache.store:nil-etag-cache-returns"] /\
-  (* apkCache.get: every result is kept (the code today, finding C19-F4) or, with fixes/C19-F4.patch,
-     a failed entry is forgotten: then it is a flight cache *)
-  (conf_of_once_shape apk_cache_shape = Some conf_once \/ conf_of_once_shape apk_cache_shape = Some conf_flight_cache).
-Proof. repeat split; try reflexivity. vm_compute. first [left; reflexivity | right; reflexivity]. Qed.
+  (* apkCache.get since fix 6e5c862 (was finding C19-F4): a failed entry's once is forgotten, so the memo of
+     expanded packages is a flight cache too — successes kept, failures not.  (Without the
+     "after:if-err-forget-once" of the shape it would be conf_once: everything kept.) *)
+  conf_of_once_shape apk_cache_shape = Some conf_flight_cache /\
+  conf_of_once_shape (List.filter (fun t => negb (String.eqb t "after:if-err-forget-once")) apk_cache_shape) = Some conf_once.
+Proof. repeat split; reflexivity. Qed.
 Print Assumptions c19_flight_code.
 
 (* Transparency and coalescing, for EVERY configuration, every number of callers and keys and
@@ -473,13 +475,14 @@ Proof.
 Qed.
 Print Assumptions c19_flight_transparent.
 
-(* Failures are NOT memoised by a flight cache (the configuration read from flightCache.Do, and
+(* Failures are NOT memoised by a flight cache (the configuration read from flightCache.Do, the one
+   read from apkCache.get — the per-process memo of expanded packages, repaired by 6e5c862 — and
    any configuration that is not "keep everything"): in every reachable state the map holds
    successes only; and after ANY history in which every execution for key k failed, a later call —
    made when nothing runs for k — executes fn again, and if that execution succeeds the caller gets
    its value (and the flight cache now remembers it).  A transient failure is never permanent. *)
 Theorem c19_flight_no_error_memo : forall cf tr k c v,
-  conf_of_shape flight_do_shape = Some cf \/ f_mode cf <> MAll ->
+  conf_of_shape flight_do_shape = Some cf \/ conf_of_once_shape apk_cache_shape = Some cf \/ f_mode cf <> MAll ->
   let s := frun cf finit tr in
   NoErrorMemo s /\
   (flight s k = None -> pending s = [] ->
@@ -490,19 +493,38 @@ Theorem c19_flight_no_error_memo : forall cf tr k c v,
 Proof.
   intros cf tr k c v H s.
   assert (Hm : f_mode cf <> MAll).
-  { destruct H as [H|H]; [|exact H]. vm_compute in H. inversion H. discriminate. }
+  { destruct H as [H|[H|H]]; [| |exact H]; vm_compute in H; inversion H; discriminate. }
   split; [apply flight_no_error_memo; exact Hm|].
   intros Hf Hp Hall. apply (call_after_failures cf tr k c v Hm Hf Hp Hall).
 Qed.
 Print Assumptions c19_flight_no_error_memo.
 
-(* ... and this is what the sync.Once cache of expanded packages (apkCache.get as it is today) does
-   NOT have — finding C19-F4: the statement above is FALSE for conf_once.  One failed execution
-   (a transient failure of a package download in one build of the process) and every later call for
-   the key, whatever fn would return now, is handed that error without fn being executed again;
-   the same sequence on a flight cache executes again and succeeds.  General form: with the recheck
-   a memoised result of either kind is permanent. *)
-Theorem c19_once_cache_error_memo_refuted :
+(* The repaired memo of expanded packages, explicitly (was finding C19-F4, fixed by 6e5c862): for the
+   configuration read from apkCache.get, a sequence of calls whose first execution fails and whose later
+   ones succeed is observed as: executed/error, executed/success, not executed/that success — a transient
+   failure of a package download costs one build, not the process.  (The replay on the real code: harness
+   stage shared, case package-403-once.) *)
+Theorem c19_package_memo_forgets_failures : forall cf,
+  conf_of_once_shape apk_cache_shape = Some cf ->
+  model_seq cf [("k", OErr "e1"); ("k", OOk "v2"); ("k", OOk "v3")] =
+    [ {| oc_key := "k"; oc_exec := true; oc_out := OErr "e1"; oc_res := OErr "e1" |};
+      {| oc_key := "k"; oc_exec := true; oc_out := OOk "v2"; oc_res := OOk "v2" |};
+      {| oc_key := "k"; oc_exec := false; oc_out := OOk "v3"; oc_res := OOk "v2" |} ] /\
+  (forall calls tag, validate_seq tag [] (model_seq cf calls) = []).
+Proof.
+  intros cf H. vm_compute in H. inversion H; subst cf. split; [vm_compute; reflexivity|].
+  intros calls tag. apply validate_seq_iff. apply seq_sound. discriminate.
+Qed.
+Print Assumptions c19_package_memo_forgets_failures.
+
+(* HYPOTHETICAL SHAPE (not the code of this run): a once-cache that keeps every result, errors included —
+   [conf_once], what apkCache.get was before 6e5c862 and what seeded change C19-6 turns flightCache.Do
+   into.  For it the statement of c19_flight_no_error_memo is FALSE: one failed execution and every
+   later call for the key, whatever fn would return now, is handed that error without fn being executed
+   again; the same sequence on a flight cache executes again and succeeds.  General form: with the
+   recheck a memoised result of either kind is permanent.  Kept as the reason why the shape matters
+   (c19_flight_code pins it) and as the model side of the regression replays. *)
+Theorem c19_error_memoising_once_refuted :
   (exists tr k c v, let s := frun conf_once finit tr in
      flight s k = None /\ pending s = [] /\ (forall o, In o (execs_of k s) -> is_ok o = false) /\
      let s' := frun conf_once s (call_seq c k (OOk v)) in
@@ -529,7 +551,7 @@ Proof.
   split; [intros cf tr k o c o2 Hr Hm; apply memo_permanent_call; assumption|].
   split; vm_compute; reflexivity.
 Qed.
-Print Assumptions c19_once_cache_error_memo_refuted.
+Print Assumptions c19_error_memoising_once_refuted.
 
 (* A memoised result is permanent and nothing is executed for its key again (exactly-once on
    success), whenever the leader looks at the map again inside the group (flightCache.Do, sync.Once):
@@ -594,21 +616,32 @@ Proof.
 Qed.
 Print Assumptions c19_offline_picks_newest.
 
-(* the candidates in the source of this run: every entry of the directory (the code today) or,
-   with fixes/C19-F5.patch, the entries whose name does not end in ".tmp" *)
-Theorem c19_offline_code : offline_filter = [] \/ offline_filter = ["skip-suffix:.tmp"].
-Proof. vm_compute. first [left; reflexivity | right; reflexivity]. Qed.
+(* the candidates in the source of this run: the entries whose name does not end in ".tmp", i.e. the
+   advertised names (fix c5d0145; before it every entry of the directory was a candidate) *)
+Theorem c19_offline_code :
+  offline_filter = ["skip-suffix:.tmp"] /\ pick_of_filter offline_filter = Some pick_newest_adv /\
+  pick_of_filter [] = Some pick_newest.
+Proof. repeat split; reflexivity. Qed.
 Print Assumptions c19_offline_code.
 
-(* What the property needs of that entry — it holds ALL the bytes of one served response, of the
-   file that was asked for — does NOT follow (findings C19-F5 and C19-F6):
-   (a) the newest entry may be the leftover temporary file of a download that failed or was killed:
-       a strict prefix of a served body is opened although a complete revision is advertised next to it;
-   (b) a directory holds the cached copies of several files (keyring URLs in one URL directory are all
-       filed as <etag>.etag): a request for one file is answered with the bytes of another.
-   With the choice restricted to advertised names (the repair of (a)) the entry is whole whenever the
-   advertised entries are (which c19_invariant gives); and in a directory that holds the copies of one
-   file only (the repair of (b)) the entry belongs to the file asked for. *)
+(* What the property needs of the entry an offline request is answered from, for the choice the source
+   of this run makes (was finding C19-F5, fixed by c5d0145): in EVERY directory — any leftovers of failed,
+   killed or running downloads, any modification times — the entry opened is an advertised name; no
+   advertised entry is newer; and it holds all the bytes of a served response whenever the advertised
+   entries do (which c19_invariant gives for every reachable cache state: an advertised name that exists
+   resolves to a complete file with the origin's bytes).  A partial temporary file is never opened. *)
+Theorem c19_offline_entry_whole : forall pick l e,
+  pick_of_filter offline_filter = Some pick -> pick l = Some e ->
+  In e l /\ de_adv e = true /\
+  (forall x, In x l -> de_adv x = true -> (de_mtime x <= de_mtime e)%N) /\
+  ((forall x, In x l -> de_adv x = true -> de_whole x = true) -> de_whole e = true).
+Proof.
+  intros pick l e Hp H. vm_compute in Hp. inversion Hp; subst pick.
+  destruct (pick_adv_no_adv_newer l e H) as (A & B & C).
+  split; [exact A|]. split; [exact B|]. split; [exact C|]. intros Hall. apply Hall; assumption.
+Qed.
+Print Assumptions c19_offline_entry_whole.
+
 Definition f5_dir : list dentry :=
   [ {| de_name := "1.tmp"; de_mtime := 10; de_adv := false; de_file := "APKINDEX.tar.gz"; de_rev := "r0"; de_whole := true |};
     {| de_name := "9.tmp"; de_mtime := 20; de_adv := false; de_file := "APKINDEX.tar.gz"; de_rev := "r1"; de_whole := false |};
@@ -618,27 +651,43 @@ Definition f6_dir : list dentry :=
     {| de_name := "101.tmp"; de_mtime := 20; de_adv := false; de_file := "b.rsa.pub"; de_rev := "only"; de_whole := true |};
     {| de_name := "ea.etag"; de_mtime := 11; de_adv := true; de_file := "a.rsa.pub"; de_rev := "only"; de_whole := true |};
     {| de_name := "eb.etag"; de_mtime := 21; de_adv := true; de_file := "b.rsa.pub"; de_rev := "only"; de_whole := true |} ].
-Theorem c19_offline_entry_refuted :
-  (exists l e, pick_newest l = Some e /\ de_whole e = false /\
-               exists a, In a l /\ de_adv a = true /\ de_whole a = true /\ de_file a = "APKINDEX.tar.gz") /\
-  (exists l e, pick_newest l = Some e /\ (forall x, In x l -> de_whole x = true) /\
-               (exists a, In a l /\ de_adv a = true /\ de_file a = "a.rsa.pub") /\ de_file e <> "a.rsa.pub") /\
-  (* the repairs *)
-  (forall l e, pick_newest_adv l = Some e -> (forall x, In x l -> de_adv x = true -> de_whole x = true) ->
-               de_adv e = true /\ de_whole e = true /\ In e l) /\
-  (forall l e req, pick_newest l = Some e -> (forall x, In x l -> de_file x = req) -> de_file e = req).
+
+(* HYPOTHETICAL SHAPE (not the code of this run): the choice among ALL entries — [pick_newest], what
+   fetchOffline did before c5d0145.  For it the statement above is FALSE: the newest entry may be the
+   leftover temporary file of a download that failed or was killed, a strict prefix of a served body,
+   although a complete revision is advertised next to it; the choice of this run opens that revision in
+   the same directory.  (Regression replays: fixture leftover-partial-tmp-newest, harness stage faildl.) *)
+Theorem c19_offline_all_entries_refuted :
+  exists l e, pick_newest l = Some e /\ de_adv e = false /\ de_whole e = false /\
+    exists a, In a l /\ de_adv a = true /\ de_whole a = true /\ de_file a = "APKINDEX.tar.gz" /\
+              pick_newest_adv l = Some a.
 Proof.
-  split; [exists f5_dir; eexists; split; [reflexivity|]; split; [reflexivity|]; eexists; split;
-          [right; right; left; reflexivity|repeat split]|].
-  split; [exists f6_dir; eexists; split; [reflexivity|]; split;
-          [intros x [<-|[<-|[<-|[<-|[]]]]]; reflexivity|]; split;
-          [eexists; split; [right; right; left; reflexivity|split; reflexivity]|discriminate]|].
-  split.
-  - intros l e H Hall. unfold pick_newest_adv in H. destruct (pick_newest_newest _ _ H) as [Hin _].
-    apply filter_In in Hin. destruct Hin as [Hin Ha]. split; [exact Ha|]. split; [apply Hall; assumption|exact Hin].
-  - intros l e req H Hall. apply Hall. apply (pick_newest_newest _ _ H).
+  exists f5_dir. eexists. split; [reflexivity|]. split; [reflexivity|]. split; [reflexivity|].
+  eexists. split; [right; right; left; reflexivity|]. repeat split.
 Qed.
-Print Assumptions c19_offline_entry_refuted.
+Print Assumptions c19_offline_all_entries_refuted.
+
+(* STILL OPEN, about the code of this run (finding C19-F6): "the entry belongs to the file that was asked
+   for" does not follow.  A directory holds the cached copies of several files (keyring URLs of one URL
+   directory are all filed as <etag>.etag in it): every entry is advertised and whole, and a request for
+   one file is answered with the bytes of another — an offline build with a wrong image.  What would
+   repair it (fixes/C19-F6.patch, one directory per file): in a directory that holds the copies of ONE
+   file the entry belongs to the file asked for. *)
+Theorem c19_offline_shared_directory_refuted :
+  (exists pick l e, pick_of_filter offline_filter = Some pick /\ pick l = Some e /\
+     (forall x, In x l -> de_whole x = true) /\
+     (exists a, In a l /\ de_adv a = true /\ de_file a = "a.rsa.pub") /\ de_file e <> "a.rsa.pub") /\
+  (forall pick l e req, pick_of_filter offline_filter = Some pick -> pick l = Some e ->
+     (forall x, In x l -> de_file x = req) -> de_file e = req).
+Proof.
+  split.
+  - exists pick_newest_adv, f6_dir. eexists. split; [reflexivity|]. split; [reflexivity|]. split;
+      [intros x [<-|[<-|[<-|[<-|[]]]]]; reflexivity|]. split;
+      [eexists; split; [right; right; left; reflexivity|split; reflexivity]|discriminate].
+  - intros pick l e req Hp H Hall. vm_compute in Hp. inversion Hp; subst pick.
+    apply Hall. apply (pick_adv_no_adv_newer l e H).
+Qed.
+Print Assumptions c19_offline_shared_directory_refuted.
 
 (* the validator run on real directories and on what the real fetchOffline opened decides the
    readable statement *)
